@@ -121,6 +121,19 @@ theorem maxData_fits (n : Nat) (hn : 0 < n) (d : Bytes) (hd : d.length = maxData
   rcases prefixLen_cases n with h1 | h1 | h1 <;> rcases prefixLen_cases d.length with h2 | h2 | h2 <;>
     split at hd <;> omega
 
+/-- A larger budget never yields a smaller chunk size (the helper is monotone across the prefix-length
+boundaries 64 and 8192, where it is flat for one step). -/
+theorem maxData_mono (a b : Nat) (h : a ≤ b) : maxDataForSize a ≤ maxDataForSize b := by
+  rw [maxDataForSize_eq, maxDataForSize_eq]
+  rcases prefixLen_cases a with h1 | h1 | h1 <;> rcases prefixLen_cases b with h2 | h2 | h2 <;>
+    split <;> split <;> omega
+
+/-- The helper's answer is always an encodable chunk length (below 2^20) and, for a positive budget, leaves room
+for the prefix (strictly below the budget). -/
+theorem maxData_bounded (n : Nat) : maxDataForSize n < 1048576 ∧ (0 < n → maxDataForSize n < n) := by
+  rw [maxDataForSize_eq]
+  rcases prefixLen_cases n with h1 | h1 | h1 <;> split <;> omega
+
 /-- The helper is within one byte of optimal: no chunk more than one byte longer fits. -/
 theorem maxData_within_one (n : Nat) (hlt : n < 1048576) (d e : Bytes)
     (he : encodeData d = some e) (hfit : e.length ≤ n) : d.length ≤ maxDataForSize n + 1 := by
